@@ -51,7 +51,10 @@ class Compiler:
 
         placeholders = [node for node in query.walk() if isinstance(node, ast.Placeholder)]
         if placeholders:
-            names = {placeholder.name for placeholder in placeholders}
+            # Positional placeholders are numbered below, on the AST nodes, the
+            # first time the statement is compiled: on later compilations of the
+            # same statement their name is an integer and not the empty string.
+            names = {placeholder.name if isinstance(placeholder.name, str) else '' for placeholder in placeholders}
             if all(names):
                 if not isinstance(parameters, Mapping):
                     raise TypeError('query parameters should be a mapping when using named placeholders')
